@@ -27,6 +27,7 @@ pub fn run(prop: &str, req: &str, rep: &str, outfile: &str) {
     let mut nontrivial: HashSet<String> = HashSet::new();
     match prop {
         "C17" => oracle_c17(&reqs, &reps, &mut fails, &mut checked, &mut nontrivial),
+        "C18" => oracle_c18(&reqs, &reps, &mut fails, &mut checked, &mut nontrivial),
         _ => {
             eprintln!("no oracle for {prop}");
             std::process::exit(2);
@@ -152,6 +153,73 @@ fn oracle_c17(
                 }
             }
             _ => {}
+        }
+    }
+}
+
+// ------------------------------------------------------------------------------------
+
+fn oracle_c18(
+    reqs: &[String],
+    reps: &[String],
+    fails: &mut Vec<Failure>,
+    checked: &mut u64,
+    nontrivial: &mut HashSet<String>,
+) {
+    use crate::gen::EPOCH_TICKS;
+    let min_ns: i128 = -EPOCH_TICKS * 100;
+    let max_ns: i128 = (u64::MAX as i128 - EPOCH_TICKS) * 100;
+    let ns = |s: &str, n: &str| -> i128 {
+        s.parse::<i128>().unwrap() * 1_000_000_000 + n.parse::<i128>().unwrap()
+    };
+    let mut pairs: Vec<(i128, i128, usize)> = Vec::new();
+    for (i, (q, r)) in reqs.iter().zip(reps.iter()).enumerate() {
+        let t: Vec<&str> = q.split(' ').collect();
+        if t[0] != "ts_rt" && t[0] != "ts_save" {
+            continue;
+        }
+        *checked += 1;
+        if r == "panic" {
+            fail(fails, i, q, r, "panicked".into());
+            continue;
+        }
+        if r == "unrepresentable" {
+            continue;
+        }
+        let rt: Vec<&str> = r.split(' ').collect();
+        let tin = ns(t[1], t[2]);
+        let rout = ns(rt[0], rt[1]);
+        pairs.push((tin, rout, i));
+        if tin >= min_ns && tin <= max_ns + 99 {
+            nontrivial.insert(format!("{}", tin / 100));
+            if (tin - rout).abs() >= 100 {
+                fail(fails, i, q, r, format!("returned time differs by {} ns (>= 100)", tin - rout));
+            }
+        } else if tin < min_ns {
+            if rout != min_ns {
+                fail(fails, i, q, r, "time before 1601 does not saturate at tick 0".into());
+            }
+        } else if rout != max_ns {
+            fail(fails, i, q, r, "time after the tick maximum does not saturate".into());
+        }
+        if t[0] == "ts_rt" {
+            let r2 = ns(rt[2], rt[3]);
+            if r2 != rout {
+                fail(fails, i, q, r, "setting a returned time again changed it".into());
+            }
+        }
+    }
+    pairs.sort();
+    for w in pairs.windows(2) {
+        if w[1].1 < w[0].1 {
+            let i = w[1].2;
+            fail(
+                fails,
+                i,
+                &reqs[i],
+                &reps[i],
+                format!("not monotonic: an earlier time ({}) returned a later result", reqs[w[0].2]),
+            );
         }
     }
 }
